@@ -2,4 +2,4 @@ From Coq Require Import Extraction ExtrOcamlBasic.
 From CAres.Core Require Import Servers.
 Extraction Language OCaml.
 Extraction "../ocaml/gen/ServersModel.ml" init_chan step admissible choose_server fresh_okb probe_due
-  probe_in_flight mon_init mon_step mon_run find_addr srv_lt set_servers_pinned servers_update update_changed.
+  probe_in_flight mon_init mon_step mon_run find_addr srv_lt set_servers_pinned servers_update update_changed bmon_init bmon_step.
